@@ -6,7 +6,7 @@
    [fl2] is floor(math.log2(.)) as in C10; the listing theorems hold for every [fl2]. *)
 From Coq Require Import ZArith List String.
 From Coq.Strings Require Import Byte.
-From TS Require Import Bytes Codec Ops Names Asm BytesLemmas CodecProofs AsmProofs.
+From TS Require Import Bytes Codec Ops Names Asm Tokenizer Assembler BytesLemmas CodecProofs AsmProofs AssemblerProofs TokenizerProofs ListingText.
 Import ListNotations.
 Open Scope list_scope.
 Open Scope Z_scope.
@@ -81,6 +81,55 @@ Theorem C12_decompile_sound : forall fl2 b ls,
   exists p, ls = print fl2 0 p /\ encode p = b /\ wf_prog p = true /\
             parse_listing fl2 (tokens_of ls) = Some p.
 Proof. exact decompile_sound. Qed.
+
+(* 9b. ... and through the model of the REAL compiler front end (model/Tokenizer.v get_symbols = str.split + the pop loop,
+   model/Assembler.v assemble; both tied to parsing.py by the ASRC / CTXT correspondence): the TEXT a user gets from
+   '\n'.join(decompile_script(b)) compiles back to b.  For every estimate fl2 that is exact on one-byte magnitudes, every
+   comptime evaluator ct, every well-formed program without a DEF directly inside a DEF body (the compiler refuses that
+   shape: C12_listing_text_needs_no_nested_def; compiler and builder output never has it). *)
+Theorem C12_listing_text_compiles : forall fl2 ct, fl2_small fl2 -> forall p,
+  wf_prog p = true -> forallb (ldef_ok false) p = true ->
+  compile_text fl2 ct (listing_text fl2 p) = Ok (encode p).
+Proof. exact listing_text_compiles. Qed.
+
+Theorem C12_listing_text_compiles_bytes : forall fl2 ct, fl2_small fl2 -> forall b p,
+  decode b = Some p -> forallb (ldef_ok false) p = true ->
+  compile_text fl2 ct (listing_text fl2 p) = Ok b.
+Proof. exact listing_text_compiles_bytes. Qed.
+
+Theorem C12_decompile_then_compile_text : forall fl2 ct, fl2_small fl2 -> forall p,
+  wf_prog p = true -> forallb (ldef_ok false) p = true ->
+  option_map (fun ls => compile_text fl2 ct (join_lines ls)) (decompile fl2 (encode p)) = Some (Ok (encode p)).
+Proof. exact decompile_compile_text. Qed.
+
+(* the layout of the listing is irrelevant: any indentation, any non-empty ASCII whitespace between the lines (blank lines,
+   CR LF), whitespace before and after *)
+Theorem C12_listing_layout_irrelevant : forall fl2 ct, fl2_small fl2 -> forall p ind sep w1 w2,
+  wf_prog p = true -> forallb (ldef_ok false) p = true ->
+  nonempty sep = true -> sall is_ws sep = true -> all_ascii sep = true ->
+  sall is_ws w1 = true -> all_ascii w1 = true -> sall is_ws w2 = true -> all_ascii w2 = true ->
+  compile_text fl2 ct (w1 ++ join_with sep (print fl2 ind p) ++ w2)%string = Ok (encode p).
+Proof. exact listing_layout_compiles. Qed.
+
+(* Python's str.split on the listing text gives exactly the listing's tokens; the text is ASCII *)
+Theorem C12_listing_text_tokens : forall fl2 p, split_py (listing_text fl2 p) = tokens_of (print fl2 0 p).
+Proof. exact listing_text_tokens. Qed.
+
+(* observation (proved, and the same on the real tokenizer): the pop loop does NOT leave every listing token as printed —
+   a negative d-operand "d-1" becomes "D-1", which the assembler accepts all the same *)
+Example C12_listing_token_d_minus_becomes_upper :
+  let p := [IOp1 O_PUSH0 xff] in
+  tokens_of (print fl2_exact 0 p) = ["OP_PUSH0"; "d-1"]%string /\
+  get_symbols (listing_text fl2_exact p) = Ok ["OP_PUSH0"; "D-1"]%string /\
+  ~ posts (tokens_of (print fl2_exact 0 p)) (tokens_of (print fl2_exact 0 p)).
+Proof. exact listing_tokens_not_stable. Qed.
+
+(* the no-nested-DEF premise is necessary at text level too (the real compiler: "cannot use OP_DEF within OP_DEF body") *)
+Example C12_listing_text_needs_no_nested_def :
+  let p := [IDef x00 [IDef x01 [IOp0 O_TRUE]]] in
+  wf_prog p = true /\ decode (encode p) = Some p /\
+  compile_text fl2_exact ct0 (listing_text fl2_exact p) = Err.
+Proof. exact listing_text_needs_ldef_ok. Qed.
 
 (* the d-or-x test on OP_DIV_INT / OP_MOD_INT operands cannot raise when math.log2 is as assumed in C10 *)
 Theorem C12_int_tok_total : forall fl2, fl2_ok fl2 -> forall v, v <> [] ->
@@ -177,3 +226,10 @@ Print Assumptions C12_listing_roundtrip_bytes.
 Print Assumptions C12_decompile_sound.
 Print Assumptions C12_int_tok_total.
 Print Assumptions C12_s8_spec.
+Print Assumptions C12_listing_text_compiles.
+Print Assumptions C12_listing_text_compiles_bytes.
+Print Assumptions C12_decompile_then_compile_text.
+Print Assumptions C12_listing_layout_irrelevant.
+Print Assumptions C12_listing_text_tokens.
+Print Assumptions C12_listing_token_d_minus_becomes_upper.
+Print Assumptions C12_listing_text_needs_no_nested_def.
